@@ -7,14 +7,16 @@ piecewise:
                replaced by a fake that ends the loop after one iteration, its executor by
                a recorder of `submit` calls);
 * `task`       the submitted real `_process_memory_job(job)` runs in a thread that is parked
-               on a baton *before* each of `_capture_scheduled_job`, `_invoke_job`,
-               `_delete_scheduled_job` (instance-level wrappers); one step = one of them;
+               on a baton *before* each of `_capture_scheduled_job`, `_prepare_job` (label
+               'invoke': one step = prepare + invoke, there is no DB access between them; it is
+               `_prepare_and_invoke_job` of the code with patch 18), `_delete_scheduled_job`
+               (instance-level wrappers); one step = one of them;
 * `pollSelect` the real `_process_store_jobs` runs up to (and including) the real
                `get_scheduled_jobs_to_start` call, whose answer is stashed, and is aborted;
 * `pollCapture` the real `_process_store_jobs` runs again with that stashed answer (a
                READ COMMITTED select followed later by the CAS updates) and is parked before
-               the first `_invoke_job`;
-* `pollNext`   the next `_invoke_job` / `_delete_scheduled_job` of that loop;
+               the first `_prepare_job`;
+* `pollNext`   the next `_prepare_job` + `_invoke_job` / `_delete_scheduled_job` of that loop;
 * `crash`      the instance is dropped, its parked threads never continue.
 
 Transactions of the *caller* of `schedule()`: the call is executed inside a real
@@ -22,6 +24,11 @@ Transactions of the *caller* of `schedule()`: the call is executed inside a real
 chosen when the step is generated); for a committing transaction the committed row is
 immediately moved to a side table of the harness ("not visible to anybody yet") and put
 back by the `commit` step.  That is READ COMMITTED visibility for every other actor.
+
+`cfg['bad']` (optional) lists the ordinals of the jobs that cannot be prepared: such a job is
+scheduled with a `func_name` that cannot be imported (`_prepare_job` raises ImportError).  With
+patch 18 the job is logged and dropped (prepare+invoke step without an invocation, then the delete
+step); without it the exception ends the actor (`Actor.exc`), which is reaped like a finished one.
 
 The clock is `oslo_utils.timeutils` override (whole seconds).
 """
@@ -33,6 +40,7 @@ import types
 
 T0 = datetime.datetime(2030, 1, 1, 0, 0, 0)
 TARGET_MOD = 'c13_sched_target'
+BAD_FUNC = 'no_such_function'      # not an attribute of the target module: `_prepare_job` raises
 _TL = threading.local()
 
 
@@ -162,6 +170,7 @@ class Inst(object):
         s = self.sched
         w = self.world
         real_capture = s._capture_scheduled_job
+        real_prepare = s._prepare_job        # staticmethod, always called as self._prepare_job(job)
         real_invoke = s._invoke_job
         real_delete = s._delete_scheduled_job
         me = self
@@ -178,10 +187,19 @@ class Inst(object):
                     me.poll_queue.append(w.ordinal(job.id))
             return ok
 
-        def invoke(auth_ctx, func, args):
+        def prepare(job):
+            # one step = `_prepare_job` + `_invoke_job` (no DB access in between)
             a = getattr(_TL, 'actor', None)
             if a is not None:
                 a.park('invoke')
+            o = w.ids.get(getattr(job, 'id', None))
+            if o is not None and o in w.bad:
+                w.stats['bad-job-processed'] += 1
+                if a is not None and not a.park_capture and len(me.poll_queue) > 1:
+                    w.stats['bad-job-processed-in-poll-queue'] += 1
+            return real_prepare(job)
+
+        def invoke(auth_ctx, func, args):
             w.current_inst = me.idx
             try:
                 return real_invoke(auth_ctx, func, args)
@@ -200,12 +218,14 @@ class Inst(object):
             return r
 
         s._capture_scheduled_job = capture
+        s._prepare_job = prepare
         s._invoke_job = invoke
         s._delete_scheduled_job = delete
 
 
 class World(object):
-    """cfg = {'pickup': int, 'timeout': int, 'batch': int|None}, n instances."""
+    """cfg = {'pickup': int, 'timeout': int, 'batch': int|None, 'bad': [ordinals] (optional)},
+    n instances."""
 
     KEYS = {1: 'k1', 2: 'k2', 3: 'k3'}
 
@@ -216,6 +236,7 @@ class World(object):
         self.timeutils = timeutils
         self.CONF = ocfg.CONF
         self.cfg = cfg
+        self.bad = set(cfg.get('bad') or [])     # ordinals of the jobs that cannot be prepared
         self.CONF.set_override('pickup_job_after', cfg['pickup'], 'scheduler')
         self.CONF.set_override('captured_job_timeout', cfg['timeout'], 'scheduler')
         self.CONF.set_override('batch_size', cfg['batch'], 'scheduler')
@@ -297,7 +318,8 @@ class World(object):
         if not inst.alive:
             return
         ordn = len(self.uuids)
-        job = sb.SchedulerJob(run_after=ra, func_name=TARGET_MOD + '.target',
+        func = BAD_FUNC if ordn in self.bad else 'target'
+        job = sb.SchedulerJob(run_after=ra, func_name=TARGET_MOD + '.' + func,
                               func_args={'j': ordn}, key=self.KEYS[key])
         before = set(id(e[2]) for e in inst.sched._heap)
         try:
